@@ -23,6 +23,9 @@ pub struct Case {
     pub args: Vec<String>,
     /// hasher seeds of the print / parse / re-print epochs
     pub epochs: [u64; 3],
+    /// an odd but whitespace-free token used where the type takes an arbitrary token (file names, extra values, sections)
+    #[serde(default)]
+    pub odd: Option<String>,
 }
 
 fn v(clause: &str, op: &str, pre: &str, detail: String) -> Violation {
@@ -112,7 +115,11 @@ fn tok(rng: &mut Rng) -> String {
 }
 
 fn unknown_word(rng: &mut Rng) -> String {
-    rng.pick(&["", "foo", "Required", "optional ", " extra", "yes please", "same ", "ALLOWED", "urgent", "deb-bin", "DEB", "forced", "<", ">", "==", "=>", "backports", "vendor,", "0"]).to_string()
+    rng.pick(&[
+        "", "foo", "Required", "optional ", " extra", "yes please", "same ", "ALLOWED", "urgent", "deb-bin", "DEB", "forced", "<", ">", "==", "=>", "backports", "vendor,", "0", "-", "none", "unknown",
+        "default", "any", "all", "n/a", "source", "true", "false", "1", "opt", "optionalx", "xoptional", "standard\t", "low!", "deb deb-src", "Yes", "NO", "!", "?", "*",
+    ])
+    .to_string()
 }
 
 impl Scenario for C18 {
@@ -159,22 +166,30 @@ impl Scenario for C18 {
         if mode == "unknown" {
             args[2] = unknown_word(rng);
         }
-        Case { ty: ty.to_string(), mode: mode.to_string(), args, epochs: [rng.next_u64(), rng.next_u64(), rng.next_u64()] }
+        let odd = if rng.chance(1, 6) { Some(rng.pick(&["a=b", "=", "x=", "-", "commit:1", "é", "a,b", "[x]", "<y>", "a:b", "!", "1:2-3", "%20", "#", "=="]).to_string()) } else { None };
+        Case { ty: ty.to_string(), mode: mode.to_string(), args, epochs: [rng.next_u64(), rng.next_u64(), rng.next_u64()], odd }
     }
 
     fn execute(c: &Case, obs: &mut Obs) -> Result<(), Violation> {
         use debian_control::fields as f;
-        let a = &c.args;
-        if a.len() < 4 {
+        let mut a_owned = c.args.clone();
+        if a_owned.len() < 4 {
             return Ok(());
         }
+        let odd_ok = matches!(c.ty.as_str(), "Sha1Checksum" | "Sha256Checksum" | "Sha512Checksum" | "Md5Checksum" | "changes::File");
+        if let (Some(o), true) = (&c.odd, odd_ok) {
+            let last = a_owned.len() - 1;
+            a_owned[3] = o.clone();
+            a_owned[last] = o.clone();
+        }
+        let a = &a_owned;
         let sel: usize = a[0].parse().unwrap_or(0);
         let num: usize = a[1].parse().unwrap_or(0);
         let e = c.epochs;
         let has_rejection = matches!(c.ty.as_str(), "Priority" | "MultiArch" | "Urgency" | "Sha1Checksum" | "Sha256Checksum" | "Sha512Checksum" | "Md5Checksum" | "PackageListEntry" | "changes::File" | "VersionConstraint" | "RepositoryType" | "YesNoForce" | "OriginCategory" | "Vcs");
         let mode = if c.mode == "unknown" && !has_rejection { "value" } else { c.mode.as_str() };
-        if c.mode == "unknown" && !has_rejection && (a[2].is_empty() || a[2].contains(' ')) {
-            return Ok(());
+        if c.mode == "unknown" && !has_rejection {
+            return Ok(()); // the type accepts any text: no rejection clause to check
         }
         obs.step();
         obs.count("fault.hash_reseed");
@@ -252,7 +267,11 @@ impl Scenario for C18 {
                 let prios = ["required", "important", "standard", "optional", "extra"];
                 let text = format!("{} {} {} {} {}", a[2], num, a[3], prios[sel % 5], a[a.len() - 1]);
                 match mode {
-                    "unknown" => must_reject::<File>(&c.ty, &format!("{} {} {} bogus {}", a[2], num, a[3], a[a.len() - 1]), q!(File)),
+                    "unknown" => {
+                        let w: String = a[2].chars().filter(|ch| !ch.is_whitespace()).collect();
+                        let w = if w.is_empty() || prios.contains(&w.as_str()) { format!("{w}x") } else { w };
+                        must_reject::<File>(&c.ty, &format!("{} {} {} {} {}", a[3], num, a[3], w, a[a.len() - 1]), q!(File))
+                    }
                     _ => canonical::<File>(&c.ty, &text, e, p!(File), q!(File), mode),
                 }
             }
@@ -264,7 +283,10 @@ impl Scenario for C18 {
                 if n_extra >= 2 {
                     obs.nontrivial = Some(key_of(&[&c.ty, mode, &a.join(" ")]));
                 }
-                let extras: Vec<(String, String)> = (0..n_extra).map(|i| (format!("{}{}", a[2 + (i % (a.len() - 2))], i), a[2 + ((i + 1) % (a.len() - 2))].clone())).collect();
+                let mut extras: Vec<(String, String)> = (0..n_extra).map(|i| (format!("{}{}", a[2 + (i % (a.len() - 2))], i), a[2 + ((i + 1) % (a.len() - 2))].clone())).collect();
+                if let (Some(o), Some(first)) = (&c.odd, extras.first_mut()) {
+                    first.1 = o.clone();
+                }
                 let pre = format!("{mode}+extras={}", if n_extra >= 2 { ">=2".to_string() } else { n_extra.to_string() });
                 match mode {
                     "unknown" => {
@@ -401,7 +423,8 @@ impl Scenario for C18 {
             }
             "Signature" => {
                 use apt_sources::signature::Signature as S;
-                let val = if sel % 2 == 0 { S::KeyPath(format!("/usr/share/keyrings/{}.gpg", a[2]).into()) } else { S::KeyBlock(format!("-----BEGIN PGP PUBLIC KEY BLOCK-----\n.\n{}\n-----END PGP PUBLIC KEY BLOCK-----", a[2])) };
+                let lead = ["", "", "\n", "\n\n", " \n"][(sel / 2) % 5];
+                let val = if sel % 2 == 0 { S::KeyPath(format!("/usr/share/keyrings/{}.gpg", a[2]).into()) } else { S::KeyBlock(format!("{lead}-----BEGIN PGP PUBLIC KEY BLOCK-----\n.\n{}\n-----END PGP PUBLIC KEY BLOCK-----", a[2])) };
                 let pre = format!("{mode}+{}", if sel % 2 == 0 { "key-path" } else { "key-block" });
                 match mode {
                     "canonical" => canonical::<S>(&c.ty, &val.to_string(), e, p!(S), q!(S), &pre),
@@ -417,9 +440,9 @@ impl Scenario for C18 {
     fn shrink(c: &Case) -> Vec<Case> {
         let mut out = Vec::new();
         for i in 2..c.args.len() {
-            if c.args[i].len() > 1 {
+            if c.args[i].chars().count() > 1 {
                 let mut n = c.clone();
-                n.args[i] = c.args[i][..1].to_string();
+                n.args[i] = c.args[i].chars().take(1).collect();
                 out.push(n);
             }
         }
